@@ -89,6 +89,12 @@ func (r *reloadHAProxy) When(_ any) time.Duration {
 	defer r.mu.Unlock()
 
 	now := time.Now()
+
+	// a reload is already scheduled, return the remaining time
+	if r.last.After(now) {
+		return r.last.Sub(now)
+	}
+
 	next := r.last.Add(r.interval)
 
 	// not rate limited, allow to reload now
@@ -98,7 +104,9 @@ func (r *reloadHAProxy) When(_ any) time.Duration {
 	}
 
 	// rate limited, return the remaining time to the next reload
-	return time.Until(next)
+	// and record it as the time of the last reload
+	r.last = next
+	return next.Sub(now)
 }
 
 func (r *reloadHAProxy) NumRequeues(_ any) int {
